@@ -53,8 +53,11 @@ Hoisted == {M(BeforeBranch(dv), 3, 1, <<"I", "I">>, "I") : dv \in {Ins("div-int"
 \* a copy of a parameter taken before the parameter is modified on one path (p0 = v1, p1 = v2):  t = a; if (b > 0) a = a OP 1; return t * a
 ParamCopy == {M(<<Ins("move", 0, 1, 0), Br("if-lez", 2, 4), ow, Ins("mul-int", 0, 0, 1), Ret(0)>>, 3, 1, <<"I", "I">>, "I") :
                 ow \in {InsLit("add-int/lit8", 1, 1, 1), Ins("sub-int/2addr", 1, 2, 0), InsLit("xor-int/lit8", 1, 1, -1)}}
+\* a loop left by the taken branch of its last test (p0 = v1, p1 = v2):  n = b & 3; s = 0; do { s += a; n-- } while (!(n <= 0)); return s
+ExitByTakenBranch == {M(<<InsLit("and-int/lit8", 2, 2, 3), InsLit("const/4", 0, 0, 0), Ins("add-int/2addr", 0, 1, 0), InsLit("add-int/lit8", 2, 2, -1),
+                           Br(tst, 2, 7), [I(0) EXCEPT !.op = "goto", !.t = 3], Ret(0)>>, 3, 1, <<"I", "I">>, "I") : tst \in {"if-lez"}}     \* (if-eqz would run 2^32 times for n = 0)
 Methods ==
-  Aliased \cup Propagated \cup Widened \cup Hoisted \cup ParamCopy \cup
+  Aliased \cup Propagated \cup Widened \cup Hoisted \cup ParamCopy \cup ExitByTakenBranch \cup
   {M(<<Ins(nm \o "-int", 0, 2, 3), Ret(0)>>, 4, 2, <<"I", "I">>, "I") : nm \in IntAlu}
   \cup {M(<<Ins(nm \o "-int/2addr", 2, 3, 0), Ret(2)>>, 4, 2, <<"I", "I">>, "I") : nm \in IntAlu}
   \cup {M(<<InsLit(nm \o "-int/lit16", 0, 1, lt), Ret(0)>>, 2, 1, <<"I">>, "I") : nm \in Lit16Alu, lt \in Lits16}
